@@ -17,7 +17,7 @@ From Coq Require Import List NArith ZArith Bool.
 From KV Require Import Lib.Bits Lib.Bytes Lib.Varint Model.MsgSetReader Model.ReaderModel Spec.FetchSpec
   Proofs.ReaderBatch Proofs.ReaderProofs Proofs.ReaderLTS
   Proofs.ReaderPrim Proofs.ReaderV2 Proofs.ReaderV2Run Proofs.ReaderV2Sound Proofs.ReaderV2Final
-  Proofs.ReaderV1 Proofs.ReaderV1Run Proofs.ReaderV1Final.
+  Proofs.ReaderV1 Proofs.ReaderV1Run Proofs.ReaderV1Final Proofs.ReaderMixedFinal.
 Import ListNotations.
 Open Scope Z_scope.
 
@@ -42,7 +42,9 @@ Definition C02_batch_decode_exact_full_statement : Prop :=
         fetch_run decomp fuel o hwm (fetch_response compress l o k) (Z.of_nat k) false = Some (ms, EEOF, f)
         /\ fetch_ok log o ms f.
 
-(* proved: the full statement restricted to layouts of v2 batches, COMPRESSED OR NOT, whose sizes
+(* proved: the full statement restricted to RESPONSES made of v2 batches, COMPRESSED OR NOT (the
+   batches before the fetch offset may be anything well formed: the layout may begin with v0/v1
+   batches), whose sizes
    fit the wire format ([v2ok]: codec 0..4, lengths and counts below 2^30, record bodies below
    2^31, a record-less batch carries no payload), with decompression as an oracle obeying
    decomp c (compress c x) = Some x: for every such layout — compaction holes at the head,
@@ -60,7 +62,7 @@ Theorem C02_batch_decode_exact_v2_partial :
   (forall c x, decomp c (compress c x) = Some x) ->
   forall log l o k hwm,
   log_ok log -> layout_ok log l ->
-  Forall (fun b => pb_fmt b = 2) l -> Forall (v2ok compress) l ->
+  Forall (fun b => pb_fmt b = 2) (from_offset l o) -> Forall (v2ok compress) (from_offset l o) ->
   from_offset l o <> [] -> valid_cut compress l o k -> hwm <> o ->
   forall fuel, (S (tokens [] (from_offset l o)) <= fuel)%nat ->
   exists ms f,
@@ -75,7 +77,7 @@ Theorem C02_contract_v2 :
   (forall c x, decomp c (compress c x) = Some x) ->
   forall log l k hwm fuel g,
   log_ok log -> layout_ok log l ->
-  Forall (fun b => pb_fmt b = 2) l -> Forall (v2ok compress) l ->
+  Forall (fun b => pb_fmt b = 2) (from_offset l (g_conn g)) -> Forall (v2ok compress) (from_offset l (g_conn g)) ->
   from_offset l (g_conn g) <> [] -> valid_cut compress l (g_conn g) k -> hwm <> g_conn g ->
   (S (tokens [] (from_offset l (g_conn g))) <= fuel)%nat ->
   ev_ok (fetch_run decomp fuel) log g
@@ -110,6 +112,36 @@ Theorem C02_contract_legacy_uncompressed :
         (GFetch (FData hwm (fetch_response compress l (g_conn g) k) (Z.of_nat k) false)).
 Proof. exact contract_legacy_uncompressed. Qed.
 Print Assumptions C02_contract_legacy_uncompressed.
+
+(* proved: the layout of a partition whose message format was upgraded — uncompressed v0/v1
+   batches followed by v2 batches of any codec — with the fetch offset inside the v0/v1 part:
+   the response is v0/v1 messages followed by all the v2 batches, cut anywhere legal *)
+Theorem C02_batch_decode_exact_legacy_then_v2_partial :
+  forall (compress : Z -> list N -> list N) (decomp : Z -> list N -> option (list N)),
+  (forall c x, decomp c (compress c x) = Some x) ->
+  forall log lg v2 o k hwm,
+  log_ok log -> layout_ok log (lg ++ v2) ->
+  Forall legacy_ok lg -> Forall (fun b => pb_fmt b = 2) v2 -> Forall (v2ok compress) v2 -> 0 <= o ->
+  from_offset lg o <> [] -> valid_cut compress (lg ++ v2) o k -> hwm <> o ->
+  forall fuel, (length (all_items (from_offset lg o)) + tokens [] v2 + 5 <= fuel)%nat ->
+  exists ms f,
+    fetch_run decomp fuel o hwm (fetch_response compress (lg ++ v2) o k) (Z.of_nat k) false = Some (ms, EEOF, f)
+    /\ fetch_ok log o ms f.
+Proof. exact batch_decode_exact_legacy_then_v2. Qed.
+Print Assumptions C02_batch_decode_exact_legacy_then_v2_partial.
+
+Theorem C02_contract_legacy_then_v2 :
+  forall (compress : Z -> list N -> list N) (decomp : Z -> list N -> option (list N)),
+  (forall c x, decomp c (compress c x) = Some x) ->
+  forall log lg v2 k hwm fuel g,
+  log_ok log -> layout_ok log (lg ++ v2) ->
+  Forall legacy_ok lg -> Forall (fun b => pb_fmt b = 2) v2 -> Forall (v2ok compress) v2 -> 0 <= g_conn g ->
+  from_offset lg (g_conn g) <> [] -> valid_cut compress (lg ++ v2) (g_conn g) k -> hwm <> g_conn g ->
+  (length (all_items (from_offset lg (g_conn g))) + tokens [] v2 + 5 <= fuel)%nat ->
+  ev_ok (fetch_run decomp fuel) log g
+        (GFetch (FData hwm (fetch_response compress (lg ++ v2) (g_conn g) k) (Z.of_nat k) false)).
+Proof. exact contract_legacy_then_v2. Qed.
+Print Assumptions C02_contract_legacy_then_v2.
 
 (* C02_progress (not proved): a response holding one complete batch with a record >= o delivers
    at least one record *)
